@@ -4,7 +4,7 @@ from __future__ import annotations
 import warnings
 
 import wire
-from world import World, pc, raw
+from world import World, name_locks, pc, raw
 
 warnings.simplefilter("ignore", DeprecationWarning)
 
@@ -21,6 +21,7 @@ def mk_client(world: World, proto=4, clean=True, api=2, transport="tcp", cid="ci
         args["clean_session"] = clean
     args.update(kw)
     c = pc.Client(V2 if api == 2 else V1, **args)
+    name_locks(c)
     return c
 
 
